@@ -71,6 +71,8 @@ func registerMore() {
 		Assumptions: append([]string{jsonAssumption, "reply-shaped member = carries a result or a well-formed error object and no method name (method absent, null, empty or not a string)"}, commonAssumptions...),
 		Harnesses: []HarnessSpec{
 			{Dir: "jrpc2", Name: "Harness_C02_single", Reach: []string{"dispatched", "silent", "single-reply"}},
+			{Dir: "jrpc2", Name: "Harness_selftest_wire", Reach: []string{"selftest-done", "selftest-broken-json"}, Tweak: delays(0, 1),
+				Bounds: map[string]string{"purpose": "engine validation: the inputs and expected replies of the repository's own TestServer_nonLibraryClient table (19 rows + 2 broken records) run through the engine; a mismatch makes the check inconclusive"}},
 			{Dir: "jrpc2", Name: "Harness_C02_batch", Reach: []string{"batch-reply"}, ThoroughOnly: true},
 		},
 	})
